@@ -468,7 +468,14 @@ func (fc *fctx) jsonUnmarshal(cc *ssa.CallCommon, pos token.Pos) []*Val {
 				cur = s.Field(i).Type()
 			}
 			old := tr.loadTag(tr.cur, addr, f.typ, tag)
-			nv := ite(present, "("+dec+" (oVal "+J+" "+smtString(f.name)+"))", old.E())
+			keep := old.E()
+			switch f.typ.Underlying().(type) {
+			case *types.Pointer, *types.Map, *types.Slice, *types.Interface:
+				// a JSON null sets a pointer, map, slice or interface member to nil (for other kinds it is a no-op)
+				presentNull := and("(> (oCnt "+J+" "+smtString(f.name)+") 0)", eq("(oVal "+J+" "+smtString(f.name)+")", "jNull"))
+				keep = ite(presentNull, u.zero(f.typ).E(), old.E())
+			}
+			nv := ite(present, "("+dec+" (oVal "+J+" "+smtString(f.name)+"))", keep)
 			upds = append(upds, upd{addr, f, tag, nv})
 		}
 		okc := tr.define(fc.prefix+"ju_ok", "Bool", and(oks...))
